@@ -3,7 +3,7 @@
 Importing this module registers all rules."""
 from __future__ import annotations
 
-from .rules import own, pair, order, values, lock  # noqa: F401
+from .rules import own, pair, order, values, lock, calls, trav, sib, fmt  # noqa: F401
 
 #: hand-confirmed floors for the units analysed (fail closed below)
 UNIT_FLOORS = {"modules": 11, "classes": 26, "functions": 235, "call_sites": 680}
